@@ -92,6 +92,10 @@ func WorkHistories(ds []*HDriver, job json.RawMessage) json.RawMessage {
 // HStats summarises one BFS.
 type HStats struct {
 	States, Transitions, MaxDepth, Cut, Effects int
+	// merge audit: states re-reached by a second history are expanded from that history as well and their
+	// successors compared with those of the first history (a check of the canonical state key itself)
+	AuditedStates, AuditTransitions, AuditMismatches int
+	AuditSamples                                     []string
 	Closure                                     bool
 	BudgetHit                                   bool
 	Outcomes                                    map[string]int
@@ -111,6 +115,14 @@ func RunHistories(c *Ctx, d *HDriver, maxDepth int, rep *Report) *HStats {
 	}
 	seen := map[string]bool{}
 	nPerClause := map[string]int{}
+	type succInfo struct {
+		key, digest string
+		viol        bool
+	}
+	succOf := map[string]map[string]succInfo{} // state key -> op -> successor reached from the first history
+	altHist := map[string][]string{}           // state key -> a second, different history reaching it
+	var altOrder []string
+	keyOfHist := map[string]string{} // joined history -> key of the state it reaches (expanded nodes only)
 	type node struct{ hist []string }
 	var frontier []node
 	// initial states
@@ -120,6 +132,7 @@ func RunHistories(c *Ctx, d *HDriver, maxDepth int, rep *Report) *HStats {
 		if !seen[s0.Key] {
 			seen[s0.Key] = true
 			frontier = append(frontier, node{hist: h})
+			keyOfHist[strings.Join(h, ";")] = s0.Key
 		}
 	}
 	depth := 0
@@ -189,6 +202,12 @@ func RunHistories(c *Ctx, d *HDriver, maxDepth int, rep *Report) *HStats {
 					st.Effects++
 				}
 				h := append(append([]string{}, meta[i].Hist...), op)
+				if pk, ok := keyOfHist[strings.Join(meta[i].Hist, ";")]; ok {
+					if succOf[pk] == nil {
+						succOf[pk] = map[string]succInfo{}
+					}
+					succOf[pk][op] = succInfo{s.Key, s.Digest, len(s.Violations) > 0}
+				}
 				for _, v := range s.Violations {
 					// a finding is identified by driver, violated clause and the failing history;
 					// only the first few histories per clause are kept as separate findings
@@ -211,15 +230,95 @@ func RunHistories(c *Ctx, d *HDriver, maxDepth int, rep *Report) *HStats {
 				if !seen[s.Key] {
 					seen[s.Key] = true
 					next = append(next, node{hist: h})
+					keyOfHist[strings.Join(h, ";")] = s.Key
 					if len(st.Samples) < 5 && depth >= 2 {
 						st.Samples = append(st.Samples, strings.Join(h, " ; "))
 					}
+				} else if _, ok := altHist[s.Key]; !ok && len(s.Violations) == 0 && s.Effect {
+					// reached again by a different history (only transitions that changed something: a history
+					// that merely appends a rejected operation is no independent second way)
+					altHist[s.Key] = h
+					altOrder = append(altOrder, s.Key)
 				}
 			}
 		}
 		st.PerDepth = append(st.PerDepth, len(next))
 		frontier = next
 		st.MaxDepth = depth
+	}
+	// ---- merge audit
+	auditCap := 150
+	if c.Thorough {
+		auditCap = 1500
+	}
+	var ajobs []json.RawMessage
+	var ameta []hJob
+	var akeys []string
+	for _, k := range altOrder {
+		if len(akeys) >= auditCap || time.Now().After(c.Deadline()) {
+			break
+		}
+		so := succOf[k]
+		if len(so) == 0 {
+			continue // the state was never expanded (depth bound, cut)
+		}
+		var ops []string
+		for _, op := range d.Alphabet {
+			if _, ok := so[op]; ok {
+				ops = append(ops, op)
+			}
+		}
+		j := hJob{Driver: d.Name, Hist: altHist[k], Ops: ops}
+		b, _ := json.Marshal(j)
+		ajobs = append(ajobs, b)
+		ameta = append(ameta, j)
+		akeys = append(akeys, k)
+	}
+	if len(ajobs) > 0 {
+		ares := make([]*hRes, len(ajobs))
+		pool.Map(ajobs, func(i int, res json.RawMessage) {
+			var r hRes
+			if json.Unmarshal(res, &r) == nil {
+				ares[i] = &r
+			}
+		})
+		for i, r := range ares {
+			if r == nil {
+				continue
+			}
+			st.AuditedStates++
+			for k, s := range r.Steps {
+				op := ameta[i].Ops[k]
+				st.AuditTransitions++
+				h := append(append([]string{}, ameta[i].Hist...), op)
+				// the audit steps are judged executions of the real code like any other
+				for _, v := range s.Violations {
+					ck := d.Name + ": " + clause(v)
+					if strings.HasPrefix(v, "!") {
+						rep.Add(d.Name+": "+clause(v)[1:], v[1:]+"\nhistory: "+strings.Join(h, " ; "), map[string]any{"driver": d.Name, "history": h})
+						continue
+					}
+					nPerClause[ck]++
+					if nPerClause[ck] <= 400 {
+						rep.Add(ck+" @ "+CompactHistory(h), v+"\nhistory: "+strings.Join(h, " ; "), map[string]any{"driver": d.Name, "history": h})
+					}
+				}
+				want := succOf[akeys[i]][op]
+				if len(s.Violations) == 0 && !want.viol && !s.Cut && (s.Key != want.key || s.Digest != want.digest) {
+					st.AuditMismatches++
+					if len(st.AuditSamples) < 5 {
+						what := "state"
+						if s.Key == want.key {
+							what = "observation " + s.Digest + " vs " + want.digest
+						}
+						st.AuditSamples = append(st.AuditSamples, fmt.Sprintf("%s after [%s] differs in %s from the successor of the first history reaching the same state key", op, strings.Join(ameta[i].Hist, " ; "), what))
+					}
+				}
+			}
+		}
+		if st.AuditMismatches > 0 {
+			rep.EngineNote = append(rep.EngineNote, fmt.Sprintf("%s: merge audit: %d of %d transitions from a second history disagree with the first history's successors — the canonical state key merges states with different futures (search below merged states is incomplete); e.g. %s", d.Name, st.AuditMismatches, st.AuditTransitions, strings.Join(st.AuditSamples, " || ")))
+		}
 	}
 	st.States = len(seen)
 	st.Closure = len(frontier) == 0 && !st.BudgetHit
@@ -252,7 +351,9 @@ func AddHCoverage(rep *Report, name string, st *HStats, alphabet int) {
 	}
 	h := map[string]any{"states": st.States, "transitions": st.Transitions, "max_depth": st.MaxDepth, "closure_reached": st.Closure,
 		"cut_transitions": st.Cut, "alphabet": alphabet, "transitions_with_effect": st.Effects, "distinct_outcomes": len(st.Outcomes),
-		"new_states_per_depth": st.PerDepth, "time_budget_hit": st.BudgetHit, "sample_histories": st.Samples, "sample_outcomes": outs}
+		"new_states_per_depth": st.PerDepth, "time_budget_hit": st.BudgetHit, "sample_histories": st.Samples, "sample_outcomes": outs,
+		"merge_audit": map[string]any{"states_reexpanded_from_a_second_history": st.AuditedStates, "transitions": st.AuditTransitions, "mismatches": st.AuditMismatches, "examples": st.AuditSamples}}
+	add("traces_validated_against_impl", st.AuditTransitions)
 	hs, _ := cov["histories"].(map[string]any)
 	if hs == nil {
 		hs = map[string]any{}
